@@ -165,6 +165,9 @@ type orcDriver struct {
 	vsN     uint64          // validator-set actions generated so far
 	wMon    string          // monitor id of the weight / counting clause in this domain
 	wTag    string          // appended to its sigs inside a directed scenario
+	shrunk  bool                       // MaxSizePrices was lowered by an accepted update in this block (dom_oracle_paramsupd.go)
+	stale   map[uint64]map[uint64]bool // per token: rounds a lowered retention bound can never reach (finding F-12a)
+	staleSeen map[uint64]bool
 }
 
 func newOrcDriver(o *orc, rng *RNG) *orcDriver {
@@ -659,6 +662,9 @@ func (d *orcDriver) idsMonitor(h uint64, prevPrices map[uint64][]string) {
 				d.env.Violate("C12.ids", "latest-missing", fmt.Sprintf("token %d: latest stored round %d, NextRoundID %d", tok, have[len(have)-1], next), d.hist)
 			}
 			for i := 1; i < len(have); i++ {
+				if d.stale[tok][have[i-1]] {
+					continue // below a lowered retention bound: F-12a, reported by the retention clause
+				}
 				if have[i] != have[i-1]+1 {
 					d.env.Violate("C12.ids", "gap", fmt.Sprintf("token %d: stored rounds %v have a gap", tok, have), d.hist)
 					break
@@ -666,7 +672,23 @@ func (d *orcDriver) idsMonitor(h uint64, prevPrices map[uint64][]string) {
 			}
 			// genesis may hold one entry beyond the bound only if it was loaded that way; we load at most one
 			if uint64(len(have)) > uint64(s.MaxSize) {
-				d.env.Violate("C12.ids", "retention", fmt.Sprintf("token %d: %d rounds retained, MaxSizePrices %d", tok, len(have), s.MaxSize), d.hist)
+				// rounds stored before the bound was lowered that the new bound never reaches are finding F-12a;
+				// the rounds the new bound does govern must respect it
+				nStale := 0
+				for _, r := range have {
+					if d.stale[tok][r] {
+						nStale++
+					}
+				}
+				if uint64(len(have)-nStale) > uint64(s.MaxSize) {
+					d.env.Violate("C12.ids", "retention", fmt.Sprintf("token %d: %d rounds retained (%d of them older than a lowered bound can reach), MaxSizePrices %d", tok, len(have), nStale, s.MaxSize), d.hist)
+				} else if !d.staleSeen[tok] {
+					if d.staleSeen == nil {
+						d.staleSeen = map[uint64]bool{}
+					}
+					d.staleSeen[tok] = true // once per token and history
+					d.env.Violate("C12.ids", "retention-after-lowered-bound:F-12a", fmt.Sprintf("token %d: %d rounds retained, MaxSizePrices %d: %d rounds stored before the bound was lowered are never deleted (AppendPriceTR removes exactly one key per append)", tok, len(have), s.MaxSize, nStale), d.hist)
+				}
 			}
 		} else if next > gen {
 			d.env.Violate("C12.ids", "latest-missing", fmt.Sprintf("token %d: NextRoundID %d but nothing stored", tok, next), d.hist)
@@ -765,6 +787,9 @@ func domOracleC12(env *Env) error {
 	if env.Int("valset", 0) == 1 {
 		directedDeparted(env, "C12.weights")
 	}
+	if env.Int("paramsupd", 0) == 1 {
+		directedParamsUpdates(env, "C12.weights")
+	}
 	for hi := 0; hi < n; hi++ {
 		spec := genOrcSpec(rng, false)
 		minute := rng.Chance(1, 2)
@@ -783,7 +808,14 @@ func domOracleC12(env *Env) error {
 					o.vsDo(a)
 				}
 			}
+			pu := env.Int("paramsupd", 0) == 1
+			if pu && rng.Bool() {
+				d.maybeUpdate(1, 6)
+			}
 			d.block(18)
+			if pu {
+				d.maybeUpdate(1, 12)
+			}
 			upd, halted := d.endBlock()
 			if halted {
 				env.Violate("C12.halt", "halt", "EndBlock panicked: "+o.halted, o.hist)
@@ -800,6 +832,7 @@ func domOracleC12(env *Env) error {
 					}
 				}
 			}
+			d.afterEndBlock()
 			d.idsMonitor(uint64(o.c.Header.Height), nil)
 			step := time.Duration(1+rng.Intn(5)) * time.Second
 			if minute && rng.Chance(1, 6) {
